@@ -65,6 +65,7 @@ func (d *detRand) Read(p []byte) (int, error) {
 }
 
 func resetGlobals() {
+	mgmtFault = ""
 	logger.Log = nopLogger{}
 	uuid.SetRand(&detRand{})
 	prometheus.DefaultRegisterer = prometheus.NewRegistry()
@@ -206,6 +207,7 @@ type Env struct {
 	CollIDs map[uint32]string
 	RecMeta *RecMeta
 	Col     prometheus.Collector // the metric collector, created on the first scrape
+	API     any                  // the api object (api.API), created on first use
 }
 
 // SaveCall is one call of Metadata.Save as seen at the backend interface.
